@@ -1,0 +1,61 @@
+//go:build verif
+
+package dualcmplx
+
+// Copyright ©2026 The Gonum Authors. All rights reserved.
+// Use of this source code is governed by a BSD-style
+// license that can be found in the LICENSE file.
+
+// Machine-checked contracts for the dual complex arithmetic of this package
+// (verification hook, build tag verif; this file contains comments only).
+// The contract language and the checker are described in /verif/DESIGN.md.
+//
+// The checker models complex128 operations as uninterpreted functions and has no
+// cmplx.Conj / complex() in clauses, so only the parts that are a single complex
+// operation on the components are specified (bit-exactly): Add, Sub, the real part of
+// Mul, the dual part of Conj. Mul's dual part x.Real*y.Dual + x.Dual*conj(y.Real), Inv and
+// Scale cannot be stated ("OUTSIDE-SUBSET: spec: call cmplx.Conj(y.Real)", "spec: call
+// complex(f, 0)").
+//
+// The algebraic laws are therefore stated over the definition of the documentation, written
+// with real and imaginary parts (macros below), in exact arithmetic; they are NOT linked to
+// the code by a contract.
+
+//@ func Add props: C18
+//@ writes nothing
+//@ ensures same(result.Real, x.Real + y.Real)
+//@ ensures same(result.Dual, x.Dual + y.Dual)
+
+//@ func Sub props: C18
+//@ writes nothing
+//@ ensures same(result.Real, x.Real - y.Real)
+//@ ensures same(result.Dual, x.Dual - y.Dual)
+
+//@ func Mul props: C18
+//@ writes nothing
+//@ ensures same(result.Real, x.Real * y.Real)
+
+//@ func Conj props: C18
+//@ writes nothing
+//@ ensures same(result.Dual, d.Dual)
+
+// (a+bi)(c+di) and (a+bi)*conj(c+di)
+//@ spec cre(a float64, b float64, c float64, d float64) float64 = a*c - b*d
+//@ spec cim(a float64, b float64, c float64, d float64) float64 = a*d + b*c
+// product of r+dϵ (r = rr+ri i, d = dr+di i) with s+eϵ: real part r*s, dual part r*e + d*conj(s)
+//@ spec mRr(rr float64, ri float64, dr float64, di float64, sr float64, si float64, er float64, ei float64) float64 = cre(rr, ri, sr, si)
+//@ spec mRi(rr float64, ri float64, dr float64, di float64, sr float64, si float64, er float64, ei float64) float64 = cim(rr, ri, sr, si)
+//@ spec mDr(rr float64, ri float64, dr float64, di float64, sr float64, si float64, er float64, ei float64) float64 = cre(rr, ri, er, ei) + cre(dr, di, sr, -si)
+//@ spec mDi(rr float64, ri float64, dr float64, di float64, sr float64, si float64, er float64, ei float64) float64 = cim(rr, ri, er, ei) + cim(dr, di, sr, -si)
+
+// (a*b)*c == a*(b*c) for the anti-commutative dual complex product
+//@ lemma mul_associative props: C18
+//@ floats: real
+//@ var a0 float64, a1 float64, a2 float64, a3 float64, b0 float64, b1 float64, b2 float64, b3 float64, c0 float64, c1 float64, c2 float64, c3 float64
+//@ goal mRr(mRr(a0, a1, a2, a3, b0, b1, b2, b3), mRi(a0, a1, a2, a3, b0, b1, b2, b3), mDr(a0, a1, a2, a3, b0, b1, b2, b3), mDi(a0, a1, a2, a3, b0, b1, b2, b3), c0, c1, c2, c3) == mRr(a0, a1, a2, a3, mRr(b0, b1, b2, b3, c0, c1, c2, c3), mRi(b0, b1, b2, b3, c0, c1, c2, c3), mDr(b0, b1, b2, b3, c0, c1, c2, c3), mDi(b0, b1, b2, b3, c0, c1, c2, c3)) && mRi(mRr(a0, a1, a2, a3, b0, b1, b2, b3), mRi(a0, a1, a2, a3, b0, b1, b2, b3), mDr(a0, a1, a2, a3, b0, b1, b2, b3), mDi(a0, a1, a2, a3, b0, b1, b2, b3), c0, c1, c2, c3) == mRi(a0, a1, a2, a3, mRr(b0, b1, b2, b3, c0, c1, c2, c3), mRi(b0, b1, b2, b3, c0, c1, c2, c3), mDr(b0, b1, b2, b3, c0, c1, c2, c3), mDi(b0, b1, b2, b3, c0, c1, c2, c3)) && mDr(mRr(a0, a1, a2, a3, b0, b1, b2, b3), mRi(a0, a1, a2, a3, b0, b1, b2, b3), mDr(a0, a1, a2, a3, b0, b1, b2, b3), mDi(a0, a1, a2, a3, b0, b1, b2, b3), c0, c1, c2, c3) == mDr(a0, a1, a2, a3, mRr(b0, b1, b2, b3, c0, c1, c2, c3), mRi(b0, b1, b2, b3, c0, c1, c2, c3), mDr(b0, b1, b2, b3, c0, c1, c2, c3), mDi(b0, b1, b2, b3, c0, c1, c2, c3)) && mDi(mRr(a0, a1, a2, a3, b0, b1, b2, b3), mRi(a0, a1, a2, a3, b0, b1, b2, b3), mDr(a0, a1, a2, a3, b0, b1, b2, b3), mDi(a0, a1, a2, a3, b0, b1, b2, b3), c0, c1, c2, c3) == mDi(a0, a1, a2, a3, mRr(b0, b1, b2, b3, c0, c1, c2, c3), mRi(b0, b1, b2, b3, c0, c1, c2, c3), mDr(b0, b1, b2, b3, c0, c1, c2, c3), mDi(b0, b1, b2, b3, c0, c1, c2, c3))
+
+// ϵ*ϵ == 0 and ϵ*i == -(i*ϵ): the product is anti-commutative in i and ϵ
+//@ lemma epsilon_anticommutes props: C18
+//@ floats: real
+//@ var z float64
+//@ goal mRr(0, 0, 1, 0, 0, 0, 1, 0) == 0 && mRi(0, 0, 1, 0, 0, 0, 1, 0) == 0 && mDr(0, 0, 1, 0, 0, 0, 1, 0) == 0 && mDi(0, 0, 1, 0, 0, 0, 1, 0) == 0 && mDi(0, 0, 1, 0, 0, 1, 0, 0) == -mDi(0, 1, 0, 0, 0, 0, 1, 0) && mDi(0, 1, 0, 0, 0, 0, 1, 0) == 1
